@@ -86,8 +86,9 @@ class Sched(object):
         self.budget = 10 ** 9
         self.record = True
         self.events = 0
+        self.reverse = False    # reversed canonical order (a second, very different global order)
 
-    def reset(self, boost=(), budget=10 ** 9, native=False, record=True):
+    def reset(self, boost=(), budget=10 ** 9, native=False, record=True, reverse=False):
         self.native = native
         self.boost = tuple(boost)
         self.boostidx = {b: i for i, b in enumerate(self.boost)}
@@ -96,6 +97,7 @@ class Sched(object):
         self.budget = budget
         self.record = record
         self.events = 0
+        self.reverse = reverse
 
     def digest(self):
         return hashlib.md5(repr(self.trace).encode()).hexdigest()
@@ -133,7 +135,7 @@ def key(e):
 
 
 def ordered(x, site):
-    ks = sorted(((key(e), e) for e in x), key=lambda p: p[0])
+    ks = sorted(((key(e), e) for e in x), key=lambda p: p[0], reverse=S.reverse)
     if S.boostidx:
         n = len(S.boost)
         bi = S.boostidx
